@@ -774,6 +774,10 @@ func (m *Machine) chanSend(c *ChanV, v Value) {
 	if c.closed {
 		m.goPanicStr("send on closed channel")
 	}
+	// (every operation on a channel both acquires and releases the channel's clock: a superset of
+	// Go's edges — e.g. "the k-th receive is synchronized before the completion of the k+C-th
+	// send", which is what makes a buffered channel usable as a mutex)
+	m.hbAcquire(&c.hb)
 	m.hbRelease(&c.hb)
 	if len(c.buf) < c.cap {
 		c.buf = append(c.buf, copyVal(v))
@@ -782,6 +786,7 @@ func (m *Machine) chanSend(c *ChanV, v Value) {
 	it := &sendItem{v: copyVal(v)}
 	c.sendq = append(c.sendq, it)
 	m.Yield(func() bool { return it.taken || c.closed }, "chan send (blocked)")
+	m.hbAcquire(&c.hb) // the send completes after the receive that made room for it
 	if !it.taken {
 		m.goPanicStr("send on closed channel")
 	}
@@ -820,6 +825,7 @@ func (m *Machine) chanRecv(c *ChanV, commaOk bool, t types.Type) Value {
 	m.Yield(c.recvReady, "chan recv")
 	v, ok := m.chanTake(c)
 	m.hbAcquire(&c.hb)
+	m.hbRelease(&c.hb)
 	if commaOk {
 		return Tuple{v, m.S.Bool(ok)}
 	}
